@@ -184,7 +184,7 @@ pub(crate) fn sort_requires(ctx: &Context, input_ast: Ast) -> Ast {
 
                 // Get the leading trivia of the first statement in the list, as that will be what
                 // is appended to the new statement
-                let leading_trivia = match list.first_mut() {
+                let leading_trivia: Vec<_> = match list.first_mut() {
                     Some((_, (Stmt::LocalAssignment(local_assignment), _), _)) => {
                         let trivia = local_assignment
                             .local_token()
@@ -207,6 +207,10 @@ pub(crate) fn sort_requires(ctx: &Context, input_ast: Ast) -> Ast {
                 // Mutate the first element with our leading trivia
                 match list.first_mut() {
                     Some((_, (Stmt::LocalAssignment(local_assignment), _), _)) => {
+                        // Keep the trivia the statement has itself (e.g. a comment in front of it), after the
+                        // trivia which leads the group
+                        let mut leading_trivia = leading_trivia;
+                        leading_trivia.extend(local_assignment.local_token().leading_trivia().cloned());
                         *local_assignment = local_assignment
                             .update_leading_trivia(FormatTriviaType::Replace(leading_trivia))
                     }
